@@ -598,3 +598,14 @@ package control
 //@   ensures len(q.overflow) == old(len(q.overflow)) || (q.overflowMode && len(q.overflow) == old(len(q.overflow)) + 1 && q.overflow[old(len(q.overflow))] == task)
 //@ func (*UdpTaskQueue).notifyWake
 //@   requires q != nil
+
+// C18: the knowledge entry of a name keeps the LATEST deadline seen: it is created with the answer's
+// deadline and overwritten only by a later one, never shortened.
+//@ func (*DnsController).rememberDnsKnowledge
+//@   anchorsonly
+//@   dyncalls noeffect
+//@   modifies *
+//@   at call Map).Store#1 assert unbox(a1, "string") == baseKey && typeis(a2, "int64") && unbox(a2, "int64") == expiresAt
+//@   at call Map).Store#2 assert unbox(a1, "string") == baseKey && typeis(a2, "int64") && unbox(a2, "int64") == expiresAt && (!ok || currentExpiresAt < expiresAt)
+//@   ensures calls("Map).Store") <= 1
+//@   ensures baseKey == "" ==> calls("Map).Store") == 0
